@@ -2,6 +2,7 @@ import NibabelModel.Model.C18
 import NibabelModel.Lemmas.PySlice
 import NibabelModel.Lemmas.C18
 import NibabelModel.Lemmas.C18_Map
+import NibabelModel.Lemmas.C18_Add
 /-!
   Props/C18 — property theorems for C18 (CIFTI-2 axes, header XML and matrix data stay mutually
   consistent).  All statements are unbounded (any axis length, any index object, any slice).
@@ -20,7 +21,8 @@ import NibabelModel.Lemmas.C18_Map
     `scalar_mapping_roundtrip`, `label_mapping_roundtrip` (explicit label tables = dicts with unique keys),
     `label_xml_roundtrip` + `label_colour_xml` (the colour text `'0' / '1' / str(val)` of `Cifti2Label`, under
     the contract float(str(v)) = v), `parcels_mapping_roundtrip` (EVERY `nvertices` entry survives, used or
-    not) and `parcels_mapping_missing_surface`.
+    not; the refusal for a structure without `nvertices` entry is shown by an `example`);
+    `dispatch_roundtrip` over the tables regenerated from the source; `parcels_add_ok_iff`.
   * `positions_lt`, `slice_positions_length`, `gather_getElem`, `bm_valid_of_mk` are GLUE (helper facts /
     definitional bridges), kept because other statements are read through them.
 
@@ -718,5 +720,38 @@ example : parcelsRFromMapping (parcelsRToMapping exampleParcelsR) = .ok exampleP
 example : parcelsRFromMapping (parcelsRToMapping ⟨[1], [[]], [[(0, [3])]], none, none, [(4, 9)]⟩)
     = .error .valueError := by decide
 
+
+/-- `from_index_mapping` hands every MatrixIndicesMap back to the class whose `to_mapping` wrote it: the
+    IndicesMapToDataType strings written by the five `to_mapping` methods and the `return_type` dict are both
+    REGENERATED from the working tree (`Generated/C18.lean`); exhaustive over the five axis classes. -/
+theorem dispatch_roundtrip (k : Nb.Gen.C18.Kind) :
+    (Nb.Gen.C18.returnType.find? (fun p => p.1 == Nb.Gen.C18.toMappingType k)).map (·.2) = some k := by
+  cases k <;> decide
+
+example : Nb.Gen.C18.returnType.length = 5 := by decide
+
+/-- ParcelsAxis `a + b` (audit: "characterise when `+` succeeds"): for well-formed operands it succeeds EXACTLY
+    when (1) one operand has no affine, or both have the same affine and volume shape, and (2) no surface
+    structure has two different vertex counts in the two `nvertices` dicts; with `concat_lengths` the result then
+    describes the concatenation.  (ScalarAxis / LabelAxis `+` always succeed, SeriesAxis: `series_add_spec`;
+    BrainModelAxis additionally re-runs its constructor checks — still covered by `bm_add_elements` under a
+    success hypothesis only: PARTIAL.) -/
+theorem parcels_add_ok_iff (a b : Parcels) (h1 : a.voxels.length = a.name.length)
+    (h2 : a.vertices.length = a.name.length) (h3 : b.voxels.length = b.name.length)
+    (h4 : b.vertices.length = b.name.length) (hb : (b.nvertices.map (·.1)).Nodup) :
+    (∃ r, parcelsAdd a b = .ok r) ↔
+      ((a.affine = none ∨ b.affine = none ∨ (b.affine = a.affine ∧ b.shape = a.shape)) ∧
+        NvCompatible a.nvertices b.nvertices) := parcels_add_ok_iff' a b h1 h2 h3 h4 hb
+
+example : NvCompatible [(0, 4)] [(0, 4), (1, 6)] ∧ ¬ NvCompatible [(0, 4)] [(0, 5)] := by
+  constructor
+  · intro p hp v' hv'
+    simp only [List.mem_cons, List.mem_nil_iff, or_false] at hp
+    rcases hp with rfl | rfl
+    · simp [dictGet] at hv'; exact hv'.symm
+    · simp [dictGet] at hv'
+  · intro h
+    have := h (0, 5) (by simp) 4 (by decide)
+    cases this
 
 end Nb.C18
